@@ -163,6 +163,7 @@ func vpHC_C20_two_concurrent() {
 		high = s2
 	}
 	vpAssert(cur == high, "the stored nonce equals the highest accepted sequence number")
+	vpAssert((a1 || r1 == ValidationIgnore) && (a2 || r2 == ValidationIgnore), "a well-formed message that loses the race is IGNORED (not rejected: its forwarders are not penalised), whichever check catches it")
 	if s1 > 0 && s2 > 0 {
 		vpAssert(a1 || a2, "one of two fresh sequence numbers is accepted")
 	}
